@@ -6,6 +6,4 @@ for i in $(seq -w 1 20); do
   s=$(date +%s)
   out=$(./check $id --tier ${TIER:-quick} 2>&1 | grep -v "^  built\|^  corpus\|^KNOWN-FINDING" | head -3 | cut -c1-200 | tr '\n' ' ')
   echo "$id [$(( $(date +%s)-s ))s] $out"
-  # every run compiles a freshly generated corpus module: keep the Go build cache from filling the disk during sweeps
-  if [ "$(du -sm ${GOCACHE:-$HOME/.cache/go-build} 2>/dev/null | cut -f1)" -gt 40000 ]; then go clean -cache; fi
 done
